@@ -7,12 +7,20 @@ git -C /repo worktree add --detach $wt HEAD -q || exit 2
 trap "git -C /repo worktree remove --force $wt" EXIT
 cd $wt
 export GOFLAGS=-mod=mod GOPROXY=off
-cp $d/demo_test.go ./zz_seed_demo_test.go
-pkgline=$(head -20 zz_seed_demo_test.go | grep -m1 '^package ')
-run_demo() { go test -vet=off -count=1 -run 'Demo|C[0-9][0-9]' . 2>&1 | tail -5; }
-echo "== demo without change"; r0=$(run_demo); echo "$r0" | tail -2
+pkg=$(grep -m1 '^package ' $d/demo_test.go | awk '{print $2}')
+case "$pkg" in
+  rasterizer|rasterizer_test) sub=renderers/rasterizer;;
+  pdf|pdf_test) sub=renderers/pdf;;
+  ps|ps_test) sub=renderers/ps;;
+  svg|svg_test) sub=renderers/svg;;
+  text|text_test) sub=text;;
+  *) sub=.;;
+esac
+cp $d/demo_test.go $sub/zz_seed_demo_test.go
+run_demo() { go test -vet=off -count=1 -run 'Demo|C[0-9][0-9]' ./$sub 2>&1 | tail -5; }
+echo "== demo without change ($sub)"; r0=$(run_demo); echo "$r0" | tail -2
 git apply $d/patch.diff || { echo "SEEDVERIFY: patch does not apply"; exit 1; }
 echo "== demo with change"; r1=$(run_demo); echo "$r1" | tail -2
-rm zz_seed_demo_test.go
-echo "== suite with change"; /verif/scripts/repotest.sh $wt | tail -2
+rm $sub/zz_seed_demo_test.go
+echo "== suite with change"; /verif/scripts/repotest.sh $wt | tail -2; go build ./renderers/rasterizer || echo "rasterizer build FAILED"
 echo "$r0" | grep -q '^ok' && echo "$r1" | grep -q 'FAIL' && echo "SEEDVERIFY: demo discriminates" || echo "SEEDVERIFY: demo does NOT discriminate"
